@@ -59,6 +59,13 @@ class BalancedMoveRule(BaseRule):
         ):
             return None
 
+        # A chained equation "a = b = c" has an equation as one of its sides, and
+        # arithmetic on an equation is meaningless: "(a = b) - t = c - t"
+        if isinstance(root.left, EqualExpression) or isinstance(
+            root.right, EqualExpression
+        ):
+            return None
+
         if (
             isinstance(node.parent, MultiplyExpression)
             and isinstance(node, ConstantExpression)
